@@ -812,7 +812,16 @@ impl<'a> Gui<'a> {
             }
         }
         // ---- oracles on the window
-        self.judge_window(&root, &rg, c, &win)?;
+        if let Err(mut v) = self.judge_window(&root, &rg, c, &win) {
+            // C09's text covers the follow-up search ("its bestmove is legal there and its depth-1
+            // score equals that of a fresh engine"): in the C09 check a failed follow-up is a C09 violation
+            if self.focus == "C09" && matches!(c.pos, PosSpec::Keep) && matches!(v.property.as_str(), "C07" | "C08" | "C10") {
+                v.class = format!("follow_up_{}", v.class);
+                v.detail = format!("[{} oracle, go without position after an interrupted search] {}", v.property, v.detail);
+                v.property = "C09".into();
+            }
+            return Err(v);
+        }
         self.sess.settle_idle().map_err(|f| fail_to_violation(f, "C07", "after search"))?;
         self.absorb_events(None)?;
         if let Some(b) = &win.best {
@@ -915,6 +924,16 @@ impl<'a> Gui<'a> {
             if let Some(d) = c.go.depth {
                 if (1..=3).contains(&d) && c.events.is_empty() && !c.stop_before_dequeue && refchess::occurrences(&self.cur.line, Pos::key) < 3 {
                     self.check_draw_rules(root, rg, d as u32, win, &ctx)?;
+                }
+            }
+        }
+        // ---- C09 follow-ups on positions WITH repetition history: "its depth-1 score equals that of a
+        // fresh engine given that position" is checked through the draw-rule bounds
+        if self.focus == "C09" && !legal.is_empty() && self.cur.has_repeated_position() && refchess::occurrences(&self.cur.line, Pos::key) < 3 {
+            if let Some(d) = c.go.depth {
+                if (1..=2).contains(&d) && c.events.is_empty() && !c.stop_before_dequeue && c.go.movetime.is_none() && c.go.wtime.is_none() && c.go.btime.is_none() {
+                    self.check_draw_rules(root, rg, d as u32, win, &ctx)?;
+                    self.res.bump("probe.follow_up_with_repetition_history");
                 }
             }
         }
@@ -1544,13 +1563,18 @@ pub fn gen_plan_draw(seed: u64, thorough: bool, imbalanced: &[Pos]) -> EnginePla
 pub fn gen_plan_interrupt(seed: u64, thorough: bool, pool: &[Pos]) -> EnginePlan {
     let mut rng = Rng::new(seed);
     let knobs = Knobs { poll_interval: 512, tt_capacity: *rng.pick(&[0usize, 0, 64]) };
-    let mut game = random_game(&mut rng, pool, 10, false);
+    let with_repetition = rng.chance(1, 3);
+    let mut game = random_game(&mut rng, pool, if with_repetition { 16 } else { 10 }, with_repetition);
     let mut tries = 0;
-    while (game.has_repeated_position() || game.root().half > 30 || game.root().legal_moves().len() < 2) && tries < 30 {
-        game = random_game(&mut rng, pool, 10, false);
+    let unfit = |g: &CurPos, rep: bool| -> bool {
+        let r = g.root();
+        r.half > 30 || r.legal_moves().len() < 2 || if rep { !g.has_repeated_position() || refchess::occurrences(&g.line, Pos::key) >= 3 } else { g.has_repeated_position() }
+    };
+    while unfit(&game, with_repetition) && tries < 60 {
+        game = random_game(&mut rng, pool, if with_repetition { 16 } else { 10 }, with_repetition);
         tries += 1;
     }
-    if tries >= 30 {
+    if tries >= 60 {
         game = CurPos::startpos();
     }
     let root = game.root().clone();
